@@ -127,6 +127,21 @@ def enumerate_histories(parents, cap=None):
     return out
 
 
+def history_list(tier, r, N, per_shape, enum_quick=6):
+    """[(parents, content)]: handcrafted + VERIF_SEED samples per tree shape up to N blocks + the exhaustive enumeration of the trees
+    with up to 3 blocks (all 958 in the thorough tier, `enum_quick` evenly spread per shape in the quick tier); duplicates removed"""
+    from checks.treelib import shapes_upto
+    out = [(p, c) for p, c in HANDCRAFTED]
+    for parents in shapes_upto(N):
+        if parents:
+            out += [(h.parents, h.content) for h in valid_histories(parents, r, per_shape)]
+    for parents in shapes_upto(3):
+        if parents:
+            out += [(h.parents, h.content) for h in enumerate_histories(parents, None if tier != 'quick' else enum_quick)]
+    seen = set()
+    return [j for j in out if not (repr(j) in seen or seen.add(repr(j)))]
+
+
 HANDCRAFTED = [
     # same transaction confirmed at different heights on competing forks (10 in block 2 at height+1, and in block 4 at height+2)
     ([1, 1, 3], {2: [10], 3: [], 4: [10]}),
@@ -165,7 +180,9 @@ class World:
                 outs = []
                 for oi, kind in enumerate(kinds):
                     if (tid, oi) not in self.val:
-                        self.val[(tid, oi)] = it.fresh('v%d_%d' % (tid, oi), 'u64', 0, 1 << 50).t
+                        # the 257-output transaction carries concrete amounts (what it is there for is the order of its
+                        # outputs; symbolic amounts would fork every page boundary of a 2.5 M-step history)
+                        self.val[(tid, oi)] = (1000 * tid + oi) if tid == WIDE else it.fresh('v%d_%d' % (tid, oi), 'u64', 0, 1 << 50).t
                     outs.append((SInt(self.val[(tid, oi)], 'u64'), kind))
                 txs.append(led.tx(tid, ins, outs))
             self.blocks[b] = led.block(b, ts.par.get(b, 0), txs)
